@@ -21,6 +21,11 @@ Record kfin := mk_kfin { kf_key : N; kf_gen : option nat }.
 Record pobs := mk_pobs { po_writes : N; po_class : N; po_called : bool;
                          po_cancelled : bool; po_expired : bool; po_wtime : N; po_racy : bool }.
 
+(* lab: per query. expectation the fault scripts force (0 either, 1 NOERROR, 2 SERVFAIL),
+   writes on its transport, class of the reply (1 NOERROR, 2 SERVFAIL), latency in ms,
+   client went away *)
+Record lobs := mk_lobs { lo_expect : N; lo_writes : N; lo_class : N; lo_latency : N; lo_cancelled : bool }.
+
 Inductive case :=
 | CaseWriter (ops : list wop) (obs : list wobs) (emits : list temit)
 | CaseWG (ops : list wgop) (obs : list wgobs) (fin : list gfin) (keys : list kfin)
@@ -33,7 +38,13 @@ Inductive case :=
      (0 ServeMsg, 1 ring, 2 inline first); whether the chain was entered; after the drain:
      slabs still leased, jobs still in flight *)
 | CaseServer (workers qcap cap : nat) (rs : list preq) (paths : list N) (evs : list wevent)
-             (obs : list pobs) (entered : list bool) (downstream_calls : N) (leased_end inflight_end : N).
+             (obs : list pobs) (entered : list bool) (downstream_calls : N) (leased_end inflight_end : N)
+  (* fault-script lab against the real resolver (wall-clock): query timeout, observations,
+     goroutines above the baseline after the drain *)
+| CaseLab (qt_ms : N) (obs : list lobs) (goroutines_left : N)
+  (* LazyDeadline under a virtual clock: deadline offset (ms), operations, per-op observation
+     (Err / EffectiveError: 0 nil 1 DeadlineExceeded 2 Canceled; Done: 1 closed) *)
+| CaseLazy (deadline : Z) (ops : list lzop) (obs : list N).
 
 (* ---- helpers ---- *)
 Definition ret_code (r : wret) : N := match r with ROk => 0 | RAlready => 1 | RErr => 2 end%N.
@@ -210,6 +221,27 @@ Fixpoint entered_ok (o : list pobs) (en : list bool) : bool :=
   | _, _ => false
   end.
 
+(* the request-context specification on the observations: an error is reported only after a
+   cause exists (own Cancel, parent cancel, deadline reached), it never changes afterwards,
+   and EffectiveError is nil exactly while no cause exists *)
+Fixpoint lazy_spec (deadline now_ : Z) (caused : bool) (pinned : N) (ops : list lzop) (obs : list N) : bool :=
+  match ops, obs with
+  | [], [] => true
+  | o :: r, x :: xr =>
+      let now1 := match o with LSleep d => (now_ + d)%Z | _ => now_ end in
+      let caused1 := caused || (match o with LCancel | LParentCancel => true | _ => false end) || negb (now1 <? deadline)%Z in
+      let ok :=
+        match o with
+        | LErr => (if negb (x =? 0)%N then caused1 && ((pinned =? 0)%N || (pinned =? x)%N) else (pinned =? 0)%N)
+        | LEffective => (if (x =? 0)%N then negb caused1 else ((pinned =? 0)%N || (pinned =? x)%N))
+        | LDone => (if (x =? 1)%N then caused1 else (pinned =? 0)%N)
+        | _ => true
+        end in
+      let pinned1 := match o with LErr => (if (pinned =? 0)%N then x else pinned) | _ => pinned end in
+      ok && lazy_spec deadline now1 caused1 pinned1 r xr
+  | _, _ => false
+  end.
+
 Definition check_case (c : case) : bool :=
   match c with
   | CaseWriter ops obs emits =>
@@ -238,6 +270,17 @@ Definition check_case (c : case) : bool :=
       let s := fold_left sevent_step evs (sworld0 rs paths workers qcap cap) in
       pipe_agrees (reqs (s_w s)) (calls (s_w s)) obs dcalls &&
       (N.of_nat (e_leased (s_e s)) =? leased)%N && (inflight =? leased)%N
+  | CaseLab qt obs gleft =>
+      (* ground truth of the generator: where both name servers can only fail the reply is
+         SERVFAIL, where both answer usably it is the answer *)
+      forallb (fun o => if (lo_writes o =? 1)%N && negb (lo_cancelled o)
+                        then match lo_expect o with
+                             | 1 => (lo_class o =? 1)
+                             | 2 => (lo_class o =? 2)
+                             | _ => (lo_class o =? 1) || (lo_class o =? 2)
+                             end%N
+                        else true) obs
+  | CaseLazy deadline ops obs => list_eqb N.eqb (snd (lz_run (lz_init deadline) ops)) obs
   end.
 
 Definition spec_case (c : case) : bool :=
@@ -268,4 +311,14 @@ Definition spec_case (c : case) : bool :=
       (length rs =? length obs)%nat && deadlines_ok rs obs &&
       (* quiescence after the drain: every slab returned, nothing in flight *)
       (leased =? 0)%N && (inflight =? 0)%N
+  | CaseLab qt obs gleft =>
+      (* one reply, in (generous) time; and a client that stayed, asking for a name whose
+         servers both answer usably, is not failed because some OTHER client's request
+         (the one it was coalesced with) expired, was cancelled or was refused *)
+      forallb (fun o => (lo_writes o <=? 1)%N && (lo_cancelled o || (lo_writes o =? 1)%N) &&
+                        (lo_latency o <=? 10 * qt)%N &&
+                        (if (lo_expect o =? 1)%N && negb (lo_cancelled o) && (lo_writes o =? 1)%N
+                         then (lo_class o =? 1)%N else true)) obs &&
+      (gleft =? 0)%N
+  | CaseLazy deadline ops obs => lazy_spec deadline 0 false 0 ops obs
   end.
